@@ -25,7 +25,7 @@ def run(ctx):
     ctx.assume('thresholds never equal an attained best chi^2 (per point) and are finite and non-zero', 'every record has at least one fit (a best chi^2 exists)',
                'a zero-byte output file means no records')
     ctx.require_events('split:checked', 'metadata:checked')
-    ctx.require_regimes('call:names-relative-to-the-current-directory', 'call:positional-arguments:chi', 'call:positional-arguments:cpd', 'input:name-re-used-with-another-set-up', 'all-good', 'all-bad', 'mixed', 'criterion:chi', 'criterion:cpd', 'names:auto', 'names:explicit', 'input:file', 'input:list',
+    ctx.require_regimes('sources:sharing-a-name', 'call:names-relative-to-the-current-directory', 'call:positional-arguments:chi', 'call:positional-arguments:cpd', 'input:name-re-used-with-another-set-up', 'all-good', 'all-bad', 'mixed', 'criterion:chi', 'criterion:cpd', 'names:auto', 'names:explicit', 'input:file', 'input:list',
                         'best:nan', 'best:inf', 'n_data=1', 'flag-4-points', 'nan-suffix', 'names:mixed', 'outputs:re-used-names', 'flags-changed-after-n_data-was-read', 'threshold:close-to-attained-value')
     d = ctx.newdir('c18')
     n_models, nb = 5, 8
@@ -65,7 +65,11 @@ def run(ctx):
             flux, err = gen.photometry_for(rng, valid, pred)
             nine = (valid == 9) | (valid == 0)
             flux[nine], err[nine] = 10.0 ** pred[nine], 0.1 * 10.0 ** pred[nine]
-            info = fitter.fit(gen.build_source('f%02d' % i, valid, flux, err))
+            sname_ = 'f%02d' % i
+            if ic % 4 == 3 and i in (1, 3):
+                sname_ = 'f00'          # the same object listed more than once (other photometry): sources sharing a name
+                ctx.regime('sources:sharing-a-name')
+            info = fitter.fit(gen.build_source(sname_, valid, flux, err))
             r = rng.random()
             if r < 0.1:
                 info.chi2 = np.full(len(info.chi2), np.nan)
@@ -212,9 +216,11 @@ def run(ctx):
             ctx.violation(key, 'a source is not in the file its best chi^2 (per point) puts it in, or input order is not preserved',
                           dict(wit, good=gn, bad=bnm, expected_good=want_good, expected_bad=want_bad))
         else:
-            byname = {r['source']['name']: r for r in recs}
-            for r in out['good'] + out['bad']:
-                dd = probe.same_canon(byname[r['source']['name']], r)
+            # (records are paired by position within each output: names need not be unique)
+            exp_g = [r for r, v in zip(recs, q) if v < thr]
+            exp_b = [r for r, v in zip(recs, q) if not (v < thr)]
+            for r_in, r in list(zip(exp_g, out['good'])) + list(zip(exp_b, out['bad'])):
+                dd = probe.same_canon(r_in, r)
                 if dd:
                     ctx.violation('split:record-altered', 'a record in an output differs from the input record: %s' % dd, dict(wit, source=r['source']['name']))
                     break
